@@ -13,3 +13,6 @@ Proof.
   revert l; induction n as [|n IH]; intros l; [reflexivity|].
   destruct l as [|a l]; simpl; [destruct k; reflexivity|]. apply IH.
 Qed.
+
+Lemma filter_length_le' {A} (f : A -> bool) (l : list A) : (length (filter f l) <= length l)%nat.
+Proof. induction l as [|a l IH]; cbn; [lia|]. destruct (f a); cbn; lia. Qed.
